@@ -1,18 +1,67 @@
 import Model.C06.Slip132
+import Proofs.C06.Net
+/-! SLIP132: finite facts about the regenerated tables (`decide +kernel` on ∃-free forms, then read back). -/
 namespace Btc.Slip132
-open Gen.Net
+open Gen.Net Btc.Address
 
 /-- a version has one meaning. -/
 theorem version_unique : ∀ a ∈ SLIP132, ∀ b ∈ SLIP132, a.1 = b.1 → a = b := by decide +kernel
 
-/-- the version a SLIP132 builder gives keeps the parent's privacy and network type and commits to the
-    requested script type — in particular a PUBLIC parent never gets another type's public version. -/
-theorem versionFor_spec : ∀ p ∈ SLIP132, ∀ k, k < 5 →
-    ∃ v, versionFor p.1 k = some v ∧ info v = some (k, p.2.2.1, p.2.2.2) := by decide +kernel
+theorem builder_core : ∀ n ∈ NETWORKS, ∀ pv ∈ versionsOf n, ∀ b ∈ SLIP132_BUILDERS, ∀ prv : Bool,
+    (builderKind b.1).isSome = true ∧
+    (builderVersion b.1 pv prv).bind info = (builderKind b.1).map fun k => (k, prv, n.isMain) := by decide +kernel
 
-/-- so the address written from a public child is of the requested type. -/
-theorem addressKind_versionFor : ∀ p ∈ SLIP132, p.2.2.1 = false → ∀ k, k < 3 →
-    ∃ v, versionFor p.1 k = some v ∧ addressKind v = some k := by decide +kernel
+/-- what slip132.py's three builders read: for a parent of ANY version of ANY network and either privacy of
+    the key, the version handed to `derive` is, in the table read off the field names, of the script type the
+    builder is named for, of the key's privacy, of the parent's network type. -/
+theorem builder_spec (n : Network) (hn : n ∈ NETWORKS) (pv : List Nat) (hpv : pv ∈ versionsOf n)
+    (b : String × (Bool × Nat) × (Bool × Nat)) (hb : b ∈ SLIP132_BUILDERS) (prv : Bool) :
+    ∃ k v, builderKind b.1 = some k ∧ builderVersion b.1 pv prv = some v ∧ info v = some (k, prv, n.isMain) := by
+  obtain ⟨h1, h2⟩ := builder_core n hn pv hpv b hb prv
+  obtain ⟨k, hk⟩ := Option.isSome_iff_exists.mp h1
+  rw [hk] at h2
+  obtain ⟨v, hv, hi⟩ := Option.bind_eq_some_iff.mp h2
+  exact ⟨k, v, hk, hv, hi⟩
+
+theorem address_core : ∀ n ∈ NETWORKS, ∀ pv ∈ versionsOf n, ∀ b ∈ SLIP132_BUILDERS,
+    (builderKind b.1).isSome = true ∧
+    ((builderVersion b.1 pv false).bind addressDispatch).map (fun p => (functionKind p.1, p.2.isMain)) =
+      some (builderKind b.1, n.isMain) := by decide +kernel
+
+/-- `address_from_xpub` on the version a builder gave a PUBLIC key: the address function is the one of the
+    builder's script type, and the network it writes with has the parent's type. -/
+theorem address_of_built (n : Network) (hn : n ∈ NETWORKS) (pv : List Nat) (hpv : pv ∈ versionsOf n)
+    (b : String × (Bool × Nat) × (Bool × Nat)) (hb : b ∈ SLIP132_BUILDERS) :
+    ∃ k v fn m, builderKind b.1 = some k ∧ builderVersion b.1 pv false = some v ∧
+      addressDispatch v = some (fn, m) ∧ functionKind fn = some k ∧ m.isMain = n.isMain := by
+  obtain ⟨h1, h2⟩ := address_core n hn pv hpv b hb
+  obtain ⟨k, hk⟩ := Option.isSome_iff_exists.mp h1
+  obtain ⟨p, hp, he⟩ := Option.map_eq_some_iff.mp h2
+  obtain ⟨v, hv, hd⟩ := Option.bind_eq_some_iff.mp hp
+  simp only [Prod.mk.injEq] at he
+  exact ⟨k, v, p.1, p.2, hk, hv, hd, by rw [he.1, hk], he.2⟩
+
+theorem dispatch_core : ∀ r ∈ SLIP132,
+    (r.2.2.1 = false ∧ r.2.1 < 3 → (addressDispatch r.1).map (fun p => (functionKind p.1, p.2.isMain)) =
+      some (some r.2.1, r.2.2.2)) ∧
+    (r.2.2.1 = true ∨ 3 ≤ r.2.1 → addressDispatch r.1 = none) := by decide +kernel
+
+/-- the dispatch agrees with the table on EVERY version: a public version of type 0..2 is written by the
+    function of that type on a network of its type; private versions and the p2wsh types have no address. -/
+theorem dispatch_table (r : List Nat × Nat × Bool × Bool) (hr : r ∈ SLIP132) :
+    (r.2.2.1 = false ∧ r.2.1 < 3 → ∃ fn m, addressDispatch r.1 = some (fn, m) ∧ functionKind fn = some r.2.1 ∧
+      m.isMain = r.2.2.2) ∧
+    (r.2.2.1 = true ∨ 3 ≤ r.2.1 → addressDispatch r.1 = none) := by
+  obtain ⟨h1, h2⟩ := dispatch_core r hr
+  refine ⟨fun h => ?_, h2⟩
+  obtain ⟨p, hp, he⟩ := Option.map_eq_some_iff.mp (h1 h)
+  simp only [Prod.mk.injEq] at he
+  exact ⟨p.1, p.2, hp, he.1, he.2⟩
+
+/-- the three builders are three different script types; the dispatch lists three different functions. -/
+theorem builders_distinct :
+    SLIP132_BUILDERS.map (fun r => builderKind r.1) = [some 0, some 1, some 2] ∧
+    SLIP132_ADDRESS.map (fun r => functionKind r.2) = [some 0, some 1, some 2] := by decide +kernel
 
 /-- every version of the networks' xprv/xpub lists is in the table with the network's type. -/
 theorem table_covers_networks : ∀ n ∈ NETWORKS, ∀ v ∈ n.xprv ++ n.xpub,
